@@ -35,10 +35,15 @@ Fixpoint list_eqb {A} (f : A -> A -> bool) (a b : list A) : bool :=
   | x :: a', y :: b' => f x y && list_eqb f a' b'
   | _, _ => false
   end.
+(* owner names compare without regard to letter case (DNS names; a cached or
+   compressed owner may come back in another case than the question's) *)
+Definition rr_eqv (a b : rr) : bool :=
+  bytes_eqb (lower (rname a)) (lower (rname b)) && (rtype a =? rtype b) && (rclass a =? rclass b) &&
+  (rttl a =? rttl b) && bytes_eqb (rdata a) (rdata b).
 Fixpoint remove_one (r : rr) (l : list rr) : option (list rr) :=
   match l with
   | [] => None
-  | x :: t => if rr_eqb r x then Some t else option_map (cons x) (remove_one r t)
+  | x :: t => if rr_eqv r x then Some t else option_map (cons x) (remove_one r t)
   end.
 (* equal as multisets *)
 Fixpoint perm_eqb (a b : list rr) : bool :=
@@ -48,7 +53,8 @@ Fixpoint perm_eqb (a b : list rr) : bool :=
   end.
 Definition mask_addr (multi : bool) (r : rr) : rr :=
   if multi && ((rtype r =? 1) || (rtype r =? 28)) then mkRR (rname r) (rtype r) (rclass r) (rttl r) [] else r.
-(* same header, same question section, same records per section (as multisets) *)
+(* same header, same question section (exact, in order), same records per section
+   as multisets of (lower-cased owner, type, class, ttl, rdata) *)
 Definition msg_eqv (multi : bool) (a b : msg) : bool :=
   hdr_eqb (mh a) (mh b) && list_eqb q_eqb (mq a) (mq b) &&
   perm_eqb (map (mask_addr multi) (man a)) (map (mask_addr multi) (man b)) &&
